@@ -226,6 +226,11 @@ def run_case(case, tier):
             optset = None
     opts, optset, chains, tlist = pick_options(rng, recs, optset)
     opts = opts + util.neutral_options(rng, classes=classes)
+    keep_pen = case["kind"] != "file" and rng.random() < 0.12
+    if keep_pen:
+        # a parameter file that keeps penalised groups in the report (flagged): then every site is listed
+        opts = opts + ["-p", util.write_cfg({"remove_penalised_group": 0})]
+        classes.append("penalised-groups-kept")
     text = pdbio.dump(recs)
     run = obs.run_single(text, opts)
     counts["pipeline_runs"] = 1
@@ -237,7 +242,7 @@ def run_case(case, tier):
         before = len(viol)
         cen = census_mon.check(run, text, viol, counts, classes, chains=chains,
                                titrate_only=set(tlist) if tlist is not None else None,
-                               allow_topup_extras=(case["kind"] == "models"))
+                               allow_topup_extras=(case["kind"] == "models"), remove_penalised=not keep_pen)
     if desc.get("declared") and run.rec:
         conf = run.rec["confs"][run.rec["names"][0]]
         got = {g["aid"][5]: g["type"] for g in conf["groups"] if g["aid"][2] == 900 and g["aid"][1] == "L"}
